@@ -12,7 +12,9 @@ Contracts (Python sources re-parsed from /repo; PySCF's own gen_atomic_grids is 
   CiderGrids.build / prune_by_density_  (PySCF's Grids base, get_partition, arg_group_grids replaced by contracts): coords = all_coords[idx_map],
                              weights = all_weights[idx_map] on the non-padding part; idx_map injective; padding rows have zero weight;
                              grids_indexer.padding = weights.size - idx_map.size after build and after pruning (all keep patterns of a small grid: bounded)
-  sph_harm.c                 contains no OpenMP worksharing over the shared recursion buffer (every OpenMP region in the file is proved race-free)
+  sph_harm.c                 contains no OpenMP worksharing over the shared recursion buffer (every OpenMP region in the file is proved race-free);
+                             recursive_sph_harm_vec: res[nlm*i + lm] = Y_lm(r_i) for EVERY point 0 <= i < n (values per degree; coverage of the point range
+                             for all n, under manual OpenMP chunking for each team size of outcover.TEAMS)
 
 Not applicable to this technique (said plainly): orthonormality of the tabulated harmonics under the Lebedev weights is a numerical fact about
 external tables (PySCF's LebedevGrid data and the recursion in sph_harm.c), not decidable by contracts.
@@ -487,6 +489,11 @@ def _calls_with_shared_buffer(tu, fn):
 
 def units():
     u = [("from_tabs", unit_from_tabs), ("set_idx", unit_set_idx), ("sph_harm_omp", unit_sph_harm_omp)]
+    # the contract of recursive_sph_harm_vec that units atomic/* assume (row j of the table = the harmonics of point j, for EVERY j < n) is discharged
+    # on the C source for the degrees the grids use in these units (C06 carries the full range of degrees)
+    from contracts import c06
+    for L in (1, 2, 3):
+        u.append(("sph-vec-contract/%d" % L, c06.unit_sph_harm(L)))
     for p in PRUNES:
         u.append(("atomic/" + p, unit_atomic(p)))
     for al in (1, 4, 8):
